@@ -36,7 +36,7 @@ RULE = ("per generated schema (anchor part + up to 8 random types of all kinds):
         "one labelled violator per rule (26 labels), the adversarial classes of the property (duplicate fields with "
         "list/object/null/variable arguments, fragment cycles, a variable at two differently typed positions, conflicts "
         "through nested multi-letter fragments, transitive use through 3 fragments in every definition order, list "
-        "nesting), random structural mutants; every accepted query/mutation is executed under 3 resolver worlds. "
+        "nesting, the introspection meta fields at the query root and below it), random structural mutants; every accepted query/mutation is executed under 3 resolver worlds. "
         "non-trivial = document with a fragment, directive, variable or argument; distinct = distinct (schema, text, kind, world)")
 
 
